@@ -78,6 +78,10 @@ struct ReplayFile {
     base_seed: u64,
     index: u64,
     violation: Violation,
+    /// build profile of the binary that found it: "sim" (debug assertions on) or "simrel" (off);
+    /// `./check --replay` replays with the same one
+    #[serde(default = "default_profile")]
+    profile: String,
     minimised: bool,
     minimisation_attempts: u64,
     /// plans executed on the same thread, in order, before `plan` (empty: `plan` fails alone)
@@ -87,6 +91,10 @@ struct ReplayFile {
     original_plan: Option<Plan>,
     #[serde(default)]
     note: String,
+}
+
+fn default_profile() -> String {
+    "sim".to_string()
 }
 
 struct Args {
@@ -108,6 +116,8 @@ struct Args {
     merge_summary: Option<PathBuf>,
     write_summary: Option<PathBuf>,
     class: Option<String>,
+    profile_tag: String,
+    no_known_lines: bool,
 }
 
 fn parse_args() -> Result<Args, String> {
@@ -133,6 +143,8 @@ fn parse_args() -> Result<Args, String> {
         merge_summary: None,
         write_summary: None,
         class: None,
+        profile_tag: if cfg!(debug_assertions) { "sim".into() } else { "simrel".into() },
+        no_known_lines: false,
     };
     let mut it = std::env::args().skip(1);
     a.cmd = it.next().ok_or("usage: semver-dst <check|replay> ...")?;
@@ -159,6 +171,7 @@ fn parse_args() -> Result<Args, String> {
             "--merge-summary" => a.merge_summary = Some(PathBuf::from(val("--merge-summary")?)),
             "--write-summary" => a.write_summary = Some(PathBuf::from(val("--write-summary")?)),
             "--class" => a.class = Some(val("--class")?),
+            "--no-known-lines" => a.no_known_lines = true,
             other => return Err(format!("unknown argument {:?}", other)),
         }
     }
@@ -274,8 +287,14 @@ fn cmd_replay(args: &Args) -> i32 {
         }
     };
     println!(
-        "replay: property={} class={} origin={} base_seed={} index={}",
-        rf.property, rf.violation.class, rf.origin, rf.base_seed, rf.index
+        "replay: property={} class={} origin={} base_seed={} index={} found-by-profile={} this-binary={}",
+        rf.property,
+        rf.violation.class,
+        rf.origin,
+        rf.base_seed,
+        rf.index,
+        rf.profile,
+        if cfg!(debug_assertions) { "sim" } else { "simrel" }
     );
     let mut stats = Stats::default();
     if !rf.history.is_empty() {
@@ -337,7 +356,9 @@ fn cmd_check(args: &Args) -> i32 {
         let mut scratch = Stats::default();
         let out = run::execute(&Plan::fault_free(kf.repro.clone()), None, &mut scratch);
         if out.violations.iter().any(|v| kf.matches(prop.id(), v)) {
-            println!("KNOWN-FINDING: property={} id={} {}", prop.id(), kf.id, kf.what);
+            if !args.no_known_lines {
+                println!("KNOWN-FINDING: property={} id={} {}", prop.id(), kf.id, kf.what);
+            }
             announced.push(kf.id.clone());
         } else {
             println!(
@@ -491,6 +512,7 @@ fn cmd_check(args: &Args) -> i32 {
             base_seed: args.seed,
             index: f.index,
             violation: v.clone(),
+            profile: args.profile_tag.clone(),
             minimised: repro.plan != f.plan,
             minimisation_attempts: repro.attempts,
             history: repro.history,
@@ -513,7 +535,14 @@ fn cmd_check(args: &Args) -> i32 {
             println!("also observed (not replayable, several threads involved): {} [{} #{}] {}", v.class, origin, index, v.detail);
             continue;
         }
-        let path = args.replay_dir.join(format!("{}-{}-{}-{}.json", prop.id(), args.seed, index, v.class));
+        let path = args.replay_dir.join(format!(
+            "{}-{}-{}-{}{}.json",
+            prop.id(),
+            args.seed,
+            index,
+            v.class,
+            if rf.profile == "sim" { "" } else { "-simrel" }
+        ));
         match std::fs::write(&path, serde_json::to_string_pretty(&rf).unwrap()) {
             Ok(()) => {}
             Err(e) => {
